@@ -14,8 +14,9 @@ Open Scope Q_scope.
 
 (* ---- np.linspace(start, stop, n, retstep=True) ---- *)
 Definition qnat (i : nat) : Q := inject_Z (Z.of_nat i).
-Definition step (start stop : Q) (n : nat) : Q := (stop - start) / (qnat n - 1).
-Definition node (start stop : Q) (n i : nat) : Q := start + qnat i * step start stop n.
+(* Qred only normalises the representation of the same rational number (keeps vm_compute fast) *)
+Definition step (start stop : Q) (n : nat) : Q := Qred ((stop - start) / (qnat n - 1)).
+Definition node (start stop : Q) (n i : nat) : Q := Qred (start + qnat i * step start stop n).
 Definition grid (start stop : Q) (n : nat) : list Q := map (node start stop n) (seq 0 n).
 (* numpy additionally overwrites the last node by `stop`; in Q that is the same number. *)
 
